@@ -129,6 +129,42 @@ func (p *Policy) cacheFeePerByte(ic *interop.Context, value int64) {
   [("pkg/vm/vm.go", [rn("newCtx", "calleeCtx")])]),
  ("dao-rename-locals", ["C06", "C07", "C09"], "dao.go: locals renamed in HasTransaction/StoreAsTransaction/Seek",
   [("pkg/core/dao/dao.go", [rn("sKey", "signerKey")])]),
+ ("accumulator-rewritten-with-or", ["C07", "C06", "C02"], "verifyTxAttributes: `if eq { hasOracle = true }` rewritten as `hasOracle = hasOracle || eq`",
+  [("pkg/core/blockchain.go", [("""				if tx.Signers[i].Account.Equals(h) {
+					hasOracle = true
+				}""", """				hasOracle = hasOracle || tx.Signers[i].Account.Equals(h)""")])]),
+ ("queue-len-helper-under-lock", ["C20"], "Queue.Run: the guarded decrement moved into a helper method that is only called with the lock held",
+  [("pkg/network/bqueue/queue.go", [("""			bq.queueLock.Lock()
+			bq.len--
+			l := bq.len""", """			bq.queueLock.Lock()
+			bq.decLen()
+			l := bq.len"""), ("""// Put enqueues""", """func (bq *Queue[Q]) decLen() {
+	bq.len--
+}
+
+// Put enqueues""")])]),
+ ("statesync-stage-helper-under-lock", ["C20"], "statesync.Module.IsActive: the guarded read moved into a helper called under the read lock",
+  [("pkg/core/statesync/module.go", [("""func (s *Module) IsActive() bool {
+	s.lock.RLock()
+	defer s.lock.RUnlock()
+""", """func (s *Module) activeLocked() bool {
+	return !(s.syncStage == inactive || (s.syncStage == headersSynced|mptSynced|blocksSynced))
+}
+
+func (s *Module) IsActive() bool {
+	s.lock.RLock()
+	defer s.lock.RUnlock()
+	_ = s.activeLocked()
+""")])]),
+ ("error-assigned-then-checked", ["C06", "C07", "C02"], "verifyAndPoolTx: `if err := f(); err != nil` split into assignment and test",
+  [("pkg/core/blockchain.go", [("""	if err := bc.policy.CheckPolicy(bc.dao, t); err != nil {
+		// Only one %w can be used.
+		return fmt.Errorf("%w: %w", ErrPolicy, err)
+	}""", """	policyErr := bc.policy.CheckPolicy(bc.dao, t)
+	if policyErr != nil {
+		// Only one %w can be used.
+		return fmt.Errorf("%w: %w", ErrPolicy, policyErr)
+	}""")])]),
 ]
 
 out = "/verif/benign"
